@@ -215,11 +215,22 @@ def check_constructors(acc, pendulum, z, inst, x, b, case):
         ("combine(date,timetz,utc)", lambda C: C.combine(b.date(), b.timetz(), utc)),
         ("fromordinal", lambda C: C.fromordinal(b.toordinal())),
         ("utcfromtimestamp", lambda C: C.utcfromtimestamp(ts)),
+        # an explicit None drops the tzinfo the time carries
+        ("combine(date,timetz,None)", lambda C: C.combine(b.date(), b.timetz(), None)),
+        # fractions that round up to the next whole second / down to zero, a negative timestamp
+        ("utcfromtimestamp(carry)", lambda C: C.utcfromtimestamp(inst // US + 0.9999996)),
+        ("utcfromtimestamp(carry2)", lambda C: C.utcfromtimestamp(float(inst // US % 100000) + 0.99999995)),
+        ("utcfromtimestamp(tiny)", lambda C: C.utcfromtimestamp(inst // US % 100000 + 0.0000004)),
+        ("utcfromtimestamp(int)", lambda C: C.utcfromtimestamp(inst // US)),
     ]
     if z is not None:
         ctors += [
             ("fromtimestamp(ts,tz)", lambda C: C.fromtimestamp(ts, b.tzinfo)),
             ("fromtimestamp(ts,utc)", lambda C: C.fromtimestamp(ts, utc)),
+            ("fromtimestamp(carry,tz)", lambda C: C.fromtimestamp(float(inst // US % 100000) + 0.99999995, b.tzinfo)),
+            ("fromtimestamp(carry,utc)", lambda C: C.fromtimestamp(inst // US + 0.9999996, utc)),
+            ("fromtimestamp(negative-fraction,tz)", lambda C: C.fromtimestamp(-(inst // US % 100000) - 0.75, b.tzinfo)),
+            ("fromtimestamp(int,tz)", lambda C: C.fromtimestamp(inst // US, b.tzinfo)),
             ("strptime(%z)", lambda C: C.strptime(b.strftime("%Y-%m-%d %H:%M:%S.%f %z"), "%Y-%m-%d %H:%M:%S.%f %z")),
         ]
     # pendulum's own conversion of a native value: the twin itself is what must come back (tz=None: "attach no zone")
